@@ -206,7 +206,7 @@ func batch(t *testing.T, spec *Spec) {
 				sigs[res.Signature] = struct{}{}
 			}
 		}
-		if len(sum.Samples) < 2 && res.NonTrivial {
+		if len(sum.Samples) < 2 && res.NonTrivial && len(res.Scenario) < 1<<16 {
 			sample, _ := json.Marshal(map[string]interface{}{"seed": seed, "scenario": res.Scenario, "steps": res.Steps,
 				"trace_hash": res.TraceHash, "stop": res.StopReason, "trace_tail": tail(res.Trace, 12)})
 			sum.Samples = append(sum.Samples, sample)
